@@ -205,7 +205,14 @@ func concCipherList(r *Rng, n int, out *Out) {
 func lockStressEngine(rng *Rng, n int, out *Out, args map[string]string) {
 	setupNet(args, out)
 	m := service.NewListenerManager()
-	addrs := []string{"127.0.0.1:19001", "127.0.0.1:19002", "127.0.0.1:19003"}
+	addrs := []string{"127.0.0.1:19001", "127.0.0.1:19002", "127.0.0.1:19003", "127.0.0.1:19009"}
+	// 19009 is occupied by foreign sockets: every listen on it fails, again and again
+	if l, err := net.Listen("tcp", "127.0.0.1:19009"); err == nil {
+		defer l.Close()
+	}
+	if u, err := net.ListenPacket("udp", "127.0.0.1:19009"); err == nil {
+		defer u.Close()
+	}
 	workers := 12
 	var ops int64
 	done := make(chan struct{})
@@ -228,6 +235,9 @@ func lockStressEngine(rng *Rng, n int, out *Out, args map[string]string) {
 				default:
 				}
 				a := addrs[r.Intn(1+r.Intn(len(addrs)))]
+				if r.Chance(3) {
+					a = addrs[3]
+				}
 				if len(held) > 0 && r.Chance(55) {
 					i := r.Intn(len(held))
 					held[i].Close()
